@@ -124,7 +124,7 @@ class T:
             pre, post = [], []
             if uses_other:
                 # the other variable drives (or is driven by) the header: make the loop terminate by advancing both in the body
-                pre = ["var %s = %d" % (other, lo)]
+                pre = ["var %s = %d" % (other, lo - 1 - self.i(0, 1))]     # not in step with the counter: honouring or ignoring the header is observable
                 body = "rec(%s * 100 + %s); ++%s; if (%s > 6 || %s > 6) { break }" % (v, other, other if "++%s" % v in head else v, v, other)
                 return pre + ["%s { %s }" % (head, body), "print(%s)" % other]
             if "fun[" in body and ".push_back" in body:
